@@ -44,8 +44,10 @@ def cq_spec(spec):
         return f"(SSeq {kids})"
     if kind == "catch":
         return f"(SCatch {cq_spec(children[0])})"
-    if kind == "all" and payload == 0:
-        return f"(SAll {kids})"
+    if kind == "all" and payload in (0, 2):
+        return f"(SAll {kids})"          # no recover task, or one whose error class matches nothing: first error by position
+    if kind == "all" and payload == 1:
+        return f"(SAllRec {kids})"       # recover_all over every term's value or error
     raise ValueError(kind)
 
 
@@ -56,6 +58,12 @@ def cq_val(v):
         return f"(VInt ({v})%Z)"
     if isinstance(v, tuple) and len(v) == 2 and v[0] == "recovered":
         return f"(VRec ({errnum(v[1])})%Z)"
+    if isinstance(v, (list, tuple)) and len(v) == 2 and v[0] == "recovered_all":
+        # rec_value: [-1; [[0; v] | [1; e] ...]]
+        encs = []
+        for t, x in v[1]:
+            encs.append(f"(VList [VInt 0%Z; {cq_val(x)}])" if t == "val" else f"(VList [VInt 1%Z; VInt ({errnum(x)})%Z])")
+        return "(VList [VInt (-1)%Z; VList [" + "; ".join(encs) + "]])"
     if isinstance(v, (list, tuple)):
         return "(VList [" + "; ".join(cq_val(x) for x in v) + "])"
     raise ValueError(v)
@@ -116,7 +124,7 @@ class Check(PropertyCheck):
     module = "Props.C01"
     extra_modules = ["Model.EvalTreeCases"]
     theorems = ["C01_sched_refines_spec_partial", "C01_result_stable", "C01_value_xor_error", "C01_reference_decides",
-                "C01_catch_all_positional", "C01_catch_all_nonvacuous", "C01_one_outcome", "C01_schedule_independent",
+                "C01_catch_all_positional", "C01_catch_all_recover", "C01_catch_all_nonvacuous", "C01_one_outcome", "C01_schedule_independent",
                 "C01_two_failures_two_outcomes", "C01_nonvacuous"]
     assumptions = [
         "task functions are deterministic and terminate (premise of the property)",
@@ -142,7 +150,7 @@ class Check(PropertyCheck):
         self.runs = []
         for i in range(n):
             spec = jobgen.gen_spec(self.rng, [], depth=self.rng.randint(1, 4), allow_nocse=False, twins=False,
-                                   allow_fail=(i % 3 != 0), allow_all=(i % 2 == 0), all_modes=(0,))
+                                   allow_fail=(i % 3 != 0), allow_all=(i % 2 == 0), all_modes=(0, 1, 2))
             if i % 6 == 5:
                 # catch_all over terms that fail at different depths (position order != completion order)
                 kids = []
@@ -151,7 +159,7 @@ class Check(PropertyCheck):
                     for d in range(self.rng.randint(0, 2)):
                         k = (f"cw{i}_{j}_{d}", "list", 0, (k,), None)
                     kids.append(k)
-                spec = (f"ca{i}", "all", 0, tuple(kids), None)
+                spec = (f"ca{i}", "all", self.rng.choice([0, 1, 2]), tuple(kids), None)
             out = sched.run_program(lambda: vm.call(spec), {}, self.rng, complete_prob=self.rng.choice([0.1, 0.4, 0.8]))
             out["spec"] = spec
             self.runs.append(out)
